@@ -321,6 +321,8 @@ def run_impl(case):
             sepo = None
         elif sep[0] == "val":
             sepo = elem(ek, sep[1])
+        elif sep[0] == "strmulti":          # a str of two characters: a scalar that equals no element
+            sepo = elem("chr", sep[1]) + elem("chr", sep[2])
         elif sep[0] == "set":
             vals = [elem(ek, t) for t in sep[1]]
             sepo = {"list": list, "tuple": tuple, "set": set, "frozenset": frozenset}[sep[2]](vals)
@@ -497,6 +499,8 @@ def _sep(sep, ek="chr"):
         return "(SepVal %s)" % cnat(sep[1])
     if sep[0] == "set":
         return "(SepSet %s)" % _l(sep[1])
+    if sep[0] == "strmulti":
+        return "(SepVal 4999%nat)"      # compared with ==: equal to no element token
     return "(SepFun %s)" % _l(sep[1])
 
 
@@ -650,6 +654,8 @@ def _one(rng, tier, fn, src=None):
             else:
                 vs = sorted(set(lo + rng.randrange(4) for _ in range(rng.randint(0, 3))))
                 sep = [kind, vs] + ([rng.choice(["list", "tuple", "set", "frozenset"])] if kind == "set" else [])
+        if ek == "chr" and kind == "val" and rng.random() < 0.25:
+            sep = ["strmulti", lo + rng.randrange(3), lo + rng.randrange(3)]
         s = get_src(lo)
         m = None if rng.random() < 0.4 else rng.choice([0, 0, 1, 1, 2, 3, 4, len(s)])
         return {"fn": fn, "ek": ek, "mk": mk, "src": s, "sep": sep, "maxsplit": m,
